@@ -6,7 +6,13 @@
 // case grammar (two lines per case):
 //   case <id>
 //   dream <reg|log> <chains> <dims> pdf: <kind> <p...> dom: <kind> <p...> upd: <kind> <p...> diff: <kind> <p...>
-//         pre: <0|1> state: <x...> runs: <nb> <nc> [<nb> <nc> ...] rng: <r...>
+//         state: <x...> ops: <op> | <op> | ... rng: <r...>
+// ops (all on ONE TasmanianDREAM object, in order; the state and the caches are dumped after every op, "endop ..."):
+//   run <nb> <nc>          SampleDREAM<form>(nb, nc, ...)
+//   setv <x...>            setState(vector)            (a wrong size is passed on: the library must throw and change nothing)
+//   setf abs <v...> | setf rel <a> <v...>   setState(callback): overwrite / x := a x + v (reads the old chain), logs "F old = new"
+//   pdfv raw <v...> | pdfv true             setPDFvalues(vector): given values / the pdf of the current chains ("PX x = v" lines)
+//   pdff | clearpdf | clearhist | expand <k>   setPDFvalues(pdf) / clearPDFvalues / clearHistory / expandHistory
 // pdf kinds  : flat c | gauss m s | step q | zeroout lo hi            (pure, point-wise; value depends on the form)
 // dom kinds  : all | none | box lo hi | half c | lattice q
 // upd kinds  : none | shift c... | twist a          (user callbacks, logged)
@@ -17,7 +23,7 @@
 // log lines: "R v" sampler's own draw, "Rd v" draw made inside the differential-update callback, "Ru v" draw made
 // between the differential update and the domain test (= inside the independent update), "D v", "U x = x'",
 // "I x = b", "PDF n" followed by n lines "P x = v" (one batch call), "S t state: .. pdf: .." snapshot at the
-// first differential-update call of iteration t, "endrun ...".
+// first differential-update call of iteration t, "op <kind> <args>" before and "endop ..." after every operation.
 #include <cstdio>
 #include <cstdlib>
 #include <cstring>
@@ -105,8 +111,7 @@ static int run_case(const std::string &line) {
     Dom dom; dom.kind = sec["dom:"].at(0); dom.c = nums(sec["dom:"], 1);
     std::string uk = sec["upd:"].at(0); std::vector<double> uc = nums(sec["upd:"], 1);
     std::string dk = sec["diff:"].at(0); std::vector<double> dc = nums(sec["diff:"], 1);
-    bool pre = sec["pre:"].at(0) == "1";
-    std::vector<double> x0 = nums(sec["state:"]), runs = nums(sec["runs:"]), stream = nums(sec["rng:"]);
+    std::vector<double> x0 = nums(sec["state:"]), stream = nums(sec["rng:"]);
     if (stream.empty()) stream.push_back(0.5);
 
     TasmanianDREAM state(n, d);
@@ -141,35 +146,74 @@ static int run_case(const std::string &line) {
         for (size_t i = 0; i < m && i < vals.size(); i++) { vals[i] = pdf(cand.data() + i * d, d);
             pv("P", std::vector<double>(cand.begin() + i * d, cand.begin() + (i + 1) * d), {vals[i]}); } };
 
-    try {
-        state.setState(x0);
-        if (pre) { printf("preinit\n"); state.setPDFvalues(P); }
-        for (size_t q = 0; q + 1 < runs.size(); q += 2) {
-            int nb = (int) runs[q], nc = (int) runs[q + 1];
-            printf("run %d %d\n", nb, nc);
-            size_t h0 = state.getHistory().size(), p0 = state.getHistoryPDF().size();
-            dcalls = 0; iter = 0; ctx = 0;
-            bool lg = (form == "log");
-            if (uk == "libnone" || uk == "libuniform" || uk == "libgauss") {
-                TypeDistribution dist = (uk == "libuniform") ? dist_uniform : ((uk == "libgauss") ? dist_gaussian : dist_none);
-                double mag = uc.empty() ? 0.0 : uc[0];
-                if (lg) SampleDREAM<logform>(nb, nc, P, inside, state, dist, mag, diff, rng);
-                else    SampleDREAM<regform>(nb, nc, P, inside, state, dist, mag, diff, rng);
-            } else {
-                if (lg) SampleDREAM<logform>(nb, nc, P, inside, state, upd, diff, rng);
-                else    SampleDREAM<regform>(nb, nc, P, inside, state, upd, diff, rng);
-            }
-            ctx = 0;
-            printf("endrun state:"); pvec(state.getChainState());
-            printf(" pdfv:"); pvec(state.pdf_values);
-            printf(" ready: %d", (int) state.isPDFReady());
-            printf(" accepted: %zu rngpos: %zu numhist: %zu", state.accepted, pos, state.getNumHistory());
-            printf(" histold: %zu %zu", h0, p0);
-            printf(" hist:"); pvec(state.getHistory());
-            printf(" pdfh:"); pvec(state.getHistoryPDF());
-            printf("\n");
-        }
-    } catch (std::exception &e) { printf("exception %s\n", e.what()); }
+    auto dump = [&](size_t h0, size_t p0) {
+        printf("endop state:"); pvec(state.getChainState());
+        printf(" pdfv:"); pvec(state.pdf_values);
+        printf(" ready: %d", (int) state.isPDFReady());
+        printf(" accepted: %zu rngpos: %zu numhist: %zu", state.accepted, pos, state.getNumHistory());
+        printf(" histold: %zu %zu", h0, p0);
+        printf(" hist:"); pvec(state.getHistory());
+        printf(" pdfh:"); pvec(state.getHistoryPDF());
+        printf("\n");
+    };
+    // split the ops section at the "|" tokens
+    std::vector<std::vector<std::string>> ops; ops.emplace_back();
+    for (auto &t : sec["ops:"]) { if (t == "|") ops.emplace_back(); else ops.back().push_back(t); }
+    bool lg = (form == "log");
+    try { state.setState(x0); } catch (std::exception &e) { printf("exception %s\n", e.what()); }
+    for (auto &o : ops) {
+        if (o.empty()) continue;
+        size_t h0 = state.getHistory().size(), p0 = state.getHistoryPDF().size();
+        const std::string &k = o[0];
+        try {
+            if (k == "run") {
+                int nb = atoi(o[1].c_str()), nc = atoi(o[2].c_str());
+                printf("op run %d %d\n", nb, nc);
+                dcalls = 0; iter = 0; ctx = 0;
+                if (uk == "libnone" || uk == "libuniform" || uk == "libgauss") {
+                    TypeDistribution dist = (uk == "libuniform") ? dist_uniform : ((uk == "libgauss") ? dist_gaussian : dist_none);
+                    double mag = uc.empty() ? 0.0 : uc[0];
+                    if (lg) SampleDREAM<logform>(nb, nc, P, inside, state, dist, mag, diff, rng);
+                    else    SampleDREAM<regform>(nb, nc, P, inside, state, dist, mag, diff, rng);
+                } else {
+                    if (lg) SampleDREAM<logform>(nb, nc, P, inside, state, upd, diff, rng);
+                    else    SampleDREAM<regform>(nb, nc, P, inside, state, upd, diff, rng);
+                }
+                ctx = 0;
+            } else if (k == "setv") {            // setState(const std::vector<double>&)
+                std::vector<double> v = nums(o, 1);
+                printf("op setv"); pvec(v); printf("\n");
+                state.setState(v);
+            } else if (k == "setf") {            // setState(std::function<void(double*)>): abs = overwrite, rel a = x := a x + v
+                bool rel = (o[1] == "rel");
+                std::vector<double> v = nums(o, rel ? 3 : 2);
+                double a = rel ? strtod(o[2].c_str(), nullptr) : 0.0;
+                printf("op setf\n");
+                size_t ci = 0;
+                state.setState([&](double *x) -> void {
+                    std::vector<double> old(x, x + d);
+                    for (int q = 0; q < d; q++) { double nv = v[(ci * (size_t) d + (size_t) q) % v.size()]; x[q] = rel ? a * x[q] + nv : nv; }
+                    pv("F", old, std::vector<double>(x, x + d));
+                    ci++; });
+            } else if (k == "pdfv") {            // setPDFvalues(const std::vector<double>&): raw = given, true = pdf of the current state
+                std::vector<double> v;
+                if (o[1] == "true") {
+                    const std::vector<double> &cs = state.getChainState();
+                    for (int i = 0; i < n; i++) { v.push_back(pdf(cs.data() + (size_t) i * d, d));
+                        pv("PX", std::vector<double>(cs.begin() + (size_t) i * d, cs.begin() + (size_t) (i + 1) * d), {v.back()}); }
+                } else v = nums(o, 2);
+                printf("op pdfv"); pvec(v); printf("\n");
+                state.setPDFvalues(v);
+            } else if (k == "pdff") {            // setPDFvalues(probability_distribution)
+                printf("op pdff\n");
+                state.setPDFvalues(P);
+            } else if (k == "clearpdf") { printf("op clearpdf\n"); state.clearPDFvalues(); }
+            else if (k == "clearhist") { printf("op clearhist\n"); state.clearHistory(); }
+            else if (k == "expand") { printf("op expand %s\n", o[1].c_str()); state.expandHistory(atoi(o[1].c_str())); }
+            else printf("op unknown\n");
+        } catch (std::exception &e) { printf("exception %s\n", e.what()); }
+        dump(h0, p0);
+    }
     return 0;
 }
 
